@@ -78,6 +78,8 @@ class Registry:
         self.exc_parents: dict[str, str] = dict(BUILTIN_EXC)
         self.dropped_calls = set(DROPPED_CALL_PREFIXES)
         self.context_managers: list[tuple[str, str]] = []  # (regex on source text, kind)
+        self.dropped_stmts: list[str] = []  # regexes on statement source text: dropped by the extraction (statistics counters)
+        self.dynamic_dispatch: dict[str, str] = {}  # regex on call source text -> contract qualname
         self.properties: dict[str, dict] = {}  # property id -> {functions:[...], bounded:[...], ...}
 
     # -- declaration helpers used by sidecar modules -------------------------
@@ -138,6 +140,7 @@ BUILTIN_EXC = {
     "Exception": "BaseException",
     "CancelledError": "BaseException",
     "KeyboardInterrupt": "BaseException",
+    "SystemExit": "BaseException",
     "ArithmeticError": "Exception",
     "ZeroDivisionError": "ArithmeticError",
     "AssertionError": "Exception",
